@@ -192,9 +192,12 @@ type Op struct {
 	Reload bool
 	Inv    bool // ask the model to evaluate the theorems' hypotheses (WF, Placed, Ranges) here
 	// load
-	Path string
+	Path    string
+	Foreign bool // load the image the preceding mkimg produced
 	// case
 	Case int
+	// mkimg
+	Img *FImg
 	// filled in by the executor
 	Now int64
 	Rnd []byte
@@ -258,6 +261,8 @@ func (o *Op) Lines() []string {
 		return []string{fmt.Sprintf("q one=%d sels=%s", b2i(o.One), selsString(o.Sels))}
 	case "dumpfile":
 		return []string{"dumpfile path=" + o.Path}
+	case "mkimg":
+		return o.Img.lines(o.Path)
 	}
 	panic("bad op " + o.Kind)
 }
